@@ -291,8 +291,13 @@ func c20busy(c *mon.Ctx) {
 		many[i].Double(&many[i])
 		sc[i].SetUint64(uint64(3*i + 1))
 	}
+	tables := func() {
+		for i := range pts {
+			banderwagon.NewPrecompPoint(pts[i], 8) // one basis point's window tables (the unit NewIPASettings builds 256 of)
+		}
+	}
 	work := func() {
-		banderwagon.NewPrecompMSM(pts)
+		tables()
 		cp := append([]banderwagon.Element(nil), many...)
 		ptrs := make([]*banderwagon.Element, len(cp))
 		for i := range cp {
@@ -339,7 +344,7 @@ func c20busy(c *mon.Ctx) {
 		var wg2 sync.WaitGroup
 		for w := 0; w < 3; w++ {
 			wg2.Add(1)
-			go func() { defer wg2.Done(); banderwagon.NewPrecompMSM(pts) }()
+			go func() { defer wg2.Done(); tables() }()
 			time.Sleep(time.Duration(200+300*w) * time.Microsecond)
 		}
 		wg2.Wait()
